@@ -117,6 +117,22 @@ fn build_state<S: HB>(rng: &mut Rng, base: usize) -> (Box<Cache<S>>, HistCfg, Ve
     (Box::new(caches.pop().unwrap()), cfg, ops)
 }
 
+/// A big state built directly: thousands of entries, degenerate hashers included, tombstones, shuffled recency order.
+fn build_deep(rng: &mut Rng, sizes: &[usize]) -> (Box<Cache<TH>>, HistCfg) {
+    let n = sizes[rng.usize_below(sizes.len())];
+    let hk = [0u8, 0, 1, 6, 2, 3][rng.usize_below(6)];
+    let cfg = HistCfg { hk, cap0: if rng.chance(1, 2) { None } else { Some(n) }, max: usize::MAX >> 1, universe: (n + n / 4) as u32 + 40, events: 0, extreme: false };
+    let mut c: Box<Cache<TH>> = Box::new(TH::make(cfg.max, cfg.cap0, hk));
+    for id in 0..n as u32 { let _ = c.insert(TKey::new(id, (id % 3) as usize), TVal::new((id % 17) as usize)); }
+    // tombstones and a recency order that differs from insertion order
+    for id in (0..n as u32).step_by(11) { c.remove(&KeyId(id)); }
+    for id in (0..n as u32).step_by(7) { c.touch(&KeyId(id)); }
+    // end on fresh insertions: the lookups made afterwards through `&cache` (absent keys above all) are then longer than any
+    // lookup made while building, so a "record the worst case seen so far" style of write cannot have been pre-empted
+    for id in n as u32..(n + n / 4) as u32 { let _ = c.insert(TKey::new(id, 0), TVal::new(1)); }
+    (c, cfg)
+}
+
 /// (a)+(b): all cache memory read-only while every `&self` operation runs, on 1 and then on `threads` threads.
 #[cfg(all(not(miri), not(feature = "noarena")))]
 pub fn run_arena(seed: u64, states: u64, threads: usize) -> SrOut {
@@ -129,9 +145,29 @@ pub fn run_arena(seed: u64, states: u64, threads: usize) -> SrOut {
     let mut rng = Rng::new(seed);
     for st in 0..states {
         if arena::used() > (900 << 20) { break; }
+        // every 25th state is a big one: thousands of entries, also under the degenerate hashers (long probe sequences)
+        if st % 25 == 3 { arena_deep(&mut rng, base, &mut out, threads, st); continue; }
         if rng.chance(1, 8) { arena_state::<hashbrown::hash_map::DefaultHashBuilder>(&mut rng, base, &mut out, threads, st); } else { arena_state::<TH>(&mut rng, base, &mut out, threads, st); }
     }
     out
+}
+
+#[cfg(all(not(miri), not(feature = "noarena")))]
+fn arena_deep(rng: &mut Rng, base: usize, out: &mut SrOut, threads: usize, st: u64) {
+    use crate::valloc::arena;
+    let from = arena::used();
+    arena::enter();
+    let (c, cfg) = build_deep(rng, &[300, 1100, 1500, 2500, 5000]);
+    arena::leave();
+    let _ = base;
+    out.stats.count("c19_deep_states");
+    out.stats.max("c19_deep_state_max_len", c.len() as u64);
+    let hk = cfg.hk;
+    if hk <= 1 || hk == 6 { out.stats.max("c19_deep_state_max_colliding_len", if hk == 1 { c.len() as u64 / 3 } else { c.len() as u64 }); }
+    one_arena_state(&*c, &cfg, &[], out, from, threads, st);
+    std::mem::forget(c);
+    arena::reset_after_leak();
+    ledger_reset();
 }
 
 #[cfg(all(not(miri), not(feature = "noarena")))]
@@ -152,7 +188,9 @@ fn one_arena_state<S: HB>(cache: &Cache<S>, cfg: &HistCfg, ops: &[Op], out: &mut
     use crate::valloc::arena;
     let to = arena::used();
     let full = ObsOpts { universe: cfg.universe + 1, owned_form: true, traversals: true, limit: cache.len() + 8 };
-    let pre = observe(cache, &full);
+    // before the protected phase only the hook looks at the cache: a shared-reference operation that writes "the first
+    // time" or "when it beats the record so far" must not have been pre-empted by the observer's own lookups
+    let pre = observe(cache, &ObsOpts { universe: 0, owned_form: false, traversals: false, limit: cache.len() + 8 });
     let h0 = arena::byte_hash(from, to);
     let desc = format!("state#{} [{}] len={} ops={}", st, cfg.to_text(), cache.len(), ops.len());
     println!("CASE sharedref {} :: {}", desc, ops.iter().map(|o| o.to_text()).collect::<Vec<_>>().join("; "));
@@ -175,8 +213,8 @@ fn one_arena_state<S: HB>(cache: &Cache<S>, cfg: &HistCfg, ops: &[Op], out: &mut
     if crate::oracle::has_tombstones(&pre) { out.stats.count("c19_state_tombstoned"); }
     if cfg.hk == 0 { out.stats.count("c19_state_const_hasher"); }
     if h0 != h1 { out.viols.push(Viol { prop: "C19", sig: "bytes-changed".into(), msg: format!("{}: the bytes of the cache's memory changed during shared-reference operations", desc) }); }
-    if pre != mid || pre != post || pre.fingerprint != post.fingerprint { out.viols.push(Viol { prop: "C19", sig: "state-changed".into(), msg: format!("{}: observable state or link structure changed during shared-reference operations", desc) }); }
-    if !pre.g1.is_empty() || !pre.g2.is_empty() || !pre.g3.is_empty() { out.viols.push(Viol { prop: "C07", sig: "g1".into(), msg: format!("{}: state is not coherent: {:?} {:?} {:?}", desc, pre.g1, pre.g2, pre.g3) }); }
+    if mid != post || pre.fingerprint != mid.fingerprint || pre.fingerprint != post.fingerprint || pre.ents != post.ents || (pre.len, pre.cur, pre.max, pre.cap, pre.buckets, pre.seal, pre.table_at) != (post.len, post.cur, post.max, post.cap, post.buckets, post.seal, post.table_at) { out.viols.push(Viol { prop: "C19", sig: "state-changed".into(), msg: format!("{}: observable state or link structure changed during shared-reference operations", desc) }); }
+    if !post.g1.is_empty() || !post.g2.is_empty() || !post.g3.is_empty() { out.viols.push(Viol { prop: "C07", sig: "g1".into(), msg: format!("{}: state is not coherent: {:?} {:?} {:?}", desc, post.g1, post.g2, post.g3) }); }
     // all threads read the same thing the single thread read (uids of clones differ, they are not part of the digest)
     if digests.iter().any(|d| *d != d1) { out.viols.push(Viol { prop: "C19", sig: "thread-digest".into(), msg: format!("{}: reader threads observed different contents than the single-threaded run", desc) }); }
     if out.samples.len() < 4 { out.samples.push(format!("{} | {}", desc, ops.iter().map(|o| o.to_text()).collect::<Vec<_>>().join("; "))); }
@@ -189,10 +227,12 @@ pub fn run_threads(seed: u64, states: u64, threads: usize) -> SrOut {
     ledger_reset(); ledger_strict(false);
     let mut rng = Rng::new(seed);
     for st in 0..states {
-        let (cache, cfg, ops) = build_state::<TH>(&mut rng, base);
+        let deep = !cfg!(miri) && st % 25 == 3;
+        let (cache, cfg, ops) = if deep { let (c, cfg) = build_deep(&mut rng, &[300, 1100, 1500]); out.stats.count("c19_deep_states_race_detector"); (c, cfg, Vec::new()) } else { build_state::<TH>(&mut rng, base) };
         let universe = if cfg!(miri) { cfg.universe.min(6) } else { cfg.universe };
         let full = ObsOpts { universe: universe + 1, owned_form: false, traversals: true, limit: cache.len() + 8 };
-        let pre = observe(&*cache, &full);
+        // hook only (see one_arena_state): the reader threads make the first lookups and traversals this cache ever sees through `&`
+        let pre = observe(&*cache, &ObsOpts { universe: 0, owned_form: false, traversals: false, limit: cache.len() + 8 });
         let desc = format!("state#{} [{}] len={}", st, cfg.to_text(), cache.len());
         println!("CASE sharedref-threads {} :: {}", desc, ops.iter().map(|o| o.to_text()).collect::<Vec<_>>().join("; "));
         let c: &Cache<TH> = &cache;
@@ -203,7 +243,8 @@ pub fn run_threads(seed: u64, states: u64, threads: usize) -> SrOut {
         out.stats.events += 1;
         out.stats.add("c19_thread_runs_race_detector", threads as u64);
         if digests.windows(2).any(|w| w[0] != w[1]) { out.viols.push(Viol { prop: "C19", sig: "thread-digest".into(), msg: format!("{}: reader threads observed different contents", desc) }); }
-        if pre != post { out.viols.push(Viol { prop: "C19", sig: "state-changed".into(), msg: format!("{}: state changed while only shared references existed", desc) }); }
+        if pre.fingerprint != post.fingerprint || pre.ents != post.ents || (pre.len, pre.cur, pre.max, pre.cap, pre.buckets, pre.seal, pre.table_at) != (post.len, post.cur, post.max, post.cap, post.buckets, post.seal, post.table_at) || !post.g1.is_empty() || !post.g2.is_empty() || !post.g3.is_empty() {
+            out.viols.push(Viol { prop: "C19", sig: "state-changed".into(), msg: format!("{}: state changed while only shared references existed", desc) }); }
         // C18 positive direction exercised: the cache is moved to another thread, used there mutably, and moved back
         let moved = std::thread::spawn(move || { let mut c = cache; let _ = c.insert(TKey::new(0, 0), TVal::new(1)); let _ = c.get(&KeyId(0)); c }).join().unwrap();
         out.stats.count("c18_moved_across_threads");
